@@ -66,7 +66,90 @@ def extract(missing):
     f["cliStoreRawIf"] = m.group(1) if m else missing("stored-bytes rule in chunk_input")
     m = re.search(r"compression: if source_size (==|!=|<=|>=|<|>) chunk\.len\(\) \{", arch)
     f["readerRawIf"] = m.group(1) if m else missing("raw rule in chunk_stream")
+    # 3. flushes / rewind / pin comparison (the repairs of F4, F7, F3, F6)
+    ci = fn_body(cli, "chunk_input") or ""
+    f["cliTempFlushedBeforeReturn"] = bool(re.search(r"temp_file\s*\.flush\(\)\s*\.await", ci)) and \
+        ci.rfind("temp_file") > ci.rfind(".write_all(use_data)")
+    ca = fn_body(clone, "clone_archive") or ""
+    m_flush = re.search(r"output_file\s*\.flush\(\)\s*\.await", ca)
+    m_setlen = re.search(r"\.set_len\(", ca)
+    f["cloneOutputFlushedBeforeResize"] = bool(m_flush and m_setlen and m_flush.start() < m_setlen.start())
+    fs = fn_body(clone, "file_size") or ""
+    f["fileSizeRewinds"] = bool(re.search(r"SeekFrom::End\(0\).*SeekFrom::Start\(0\)", fs, re.S))
+    m = re.search(r"if ([^\{]*expected_checksum[^\{]*) \{\s*return Err\(anyhow!\(\"Header checksum mismatch\"\)\)", ca, re.S)
+    cmp_ = re.sub(r"\s+", " ", m.group(1)).strip() if m else None
+    f["pinComparison"] = cmp_ or missing("header pin comparison")
+    f["pinComparesFullBytes"] = cmp_ in ("expected_checksum.slice() != archive.header_checksum().slice()",
+                                         "archive.header_checksum().slice() != expected_checksum.slice()")
+
+    # 4. open options of the clone output, the compress output and the temp file, as Boolean expressions
+    def open_opts(body, anchor):
+        i = body.find(anchor)
+        if i < 0:
+            return None
+        j = body.find(".open(", i)
+        seg = body[i:j]
+        res = {}
+        for name in ("read", "write", "create", "create_new", "truncate", "append"):
+            mm = re.search(r"\.%s\(([^()]*(?:\([^()]*\)[^()]*)*)\)" % name, seg)
+            res[name] = re.sub(r"\s+", " ", mm.group(1)).strip() if mm else "false"
+        return res
+
+    f["cloneOpen"] = open_opts(ca, "tokio::fs::OpenOptions::new()") or missing("clone output open options")
+    cc = fn_body(cli, "compress_cmd") or ""
+    f["compressOpen"] = open_opts(cc, "std::fs::OpenOptions::new()") or missing("compress output open options")
+    f["tempOpen"] = open_opts(ci, "OpenOptions::new()") or missing("temp file open options")
+
+    # 5. order of the steps of clone_archive and compress_cmd (positions of the calls in the source)
+    def order(body, marks):
+        pos = []
+        for name, pat in marks:
+            mm = re.search(pat, body)
+            if not mm:
+                missing("step %s" % name)
+                continue
+            pos.append((mm.start(), name))
+        return [n for _, n in sorted(pos)]
+
+    f["cloneStepOrder"] = order(ca, [
+        ("try_init", r"Archive::try_init\("), ("banner", r"info_cmd::print_archive\("),
+        ("pin", r"Header checksum mismatch"), ("open_output", r"OpenOptions::new\(\)"),
+        ("device_check", r"is_block_dev\("), ("scan_output", r"chunk_index_from_readable\("),
+        ("reorder", r"\.reorder_in_place\("), ("seed_stdin", r"tokio::io::stdin\(\)"),
+        ("seed_files", r"for seed_path in"), ("fetch", r"clone_from_archive\("),
+        ("flush", r"output_file\s*\.flush\(\)"), ("resize", r"\.set_len\("), ("verify_output", r"file_checksum\("),
+    ])
+    f["compressStepOrder"] = order(cc, [
+        ("open_output", r"std::fs::OpenOptions::new\(\)"), ("chunk_input", r"chunk_input\("),
+        ("build_header", r"header::build\("), ("write_header", r"write_all\(&header_buf\)"),
+        ("copy_temp", r"std::io::copy\("), ("remove_temp", r"remove_file\("), ("print_info", r"print_archive_reader\("),
+    ])
+    m = re.search(r'Path::with_extension\(output, "([^"]*)"\)', strip_comments(rd("src/cli.rs")))
+    f["tempExtension"] = m.group(1) if m else missing("temp file extension")
+    # files opened by clone other than the output: seeds and archive must be File::open (read-only)
+    f["cloneSeedOpen"] = "File::open" if re.search(r"let file = File::open\(seed_path\)", ca) else missing("seed open")
+    ccmd = fn_body(clone, "clone_cmd") or ""
+    f["cloneArchiveOpen"] = "File::open" if re.search(r"File::open\(&path\)", ccmd) else missing("archive open")
+    f["cloneOtherFsCalls"] = sorted(set(re.findall(r"\b(remove_file|rename|create_dir\w*|File::create|hard_link|symlink\w*|copy)\(", clone)))
     return f
+
+
+FLAG_NAMES = {"opts.force_create": "o.force", "opts.seed_output": "o.seedOutput", "opts.verify_output": "o.verifyOutput",
+              "true": "true", "false": "false"}
+
+
+def bool_expr(src):
+    """Translate a Rust Boolean expression over the options into Lean; None if it has anything else."""
+    toks = re.findall(r"opts\.\w+|\|\||&&|!|\(|\)|true|false|\S+", src or "")
+    out = []
+    for t in toks:
+        if t in FLAG_NAMES:
+            out.append(FLAG_NAMES[t])
+        elif t in ("||", "&&", "!", "(", ")"):
+            out.append(t)
+        else:
+            return None
+    return " ".join(out)
 
 
 def lean_str_list(xs):
@@ -76,6 +159,7 @@ def lean_str_list(xs):
 def gen(f):
     lines = [
         "/- GENERATED by /verif/vlib/facts.py from /repo's working tree on every check run. Do not edit. -/",
+        "set_option linter.unusedVariables false",
         "namespace Bita.Gen",
         "",
         "/-- stream combinators following the `spawn_blocking` stages, in source order -/",
@@ -91,6 +175,48 @@ def gen(f):
         'def cliStoreRawIf : String := "%s"' % (f.get("cliStoreRawIf") or "unknown"),
         "/-- reader: a fetched chunk is taken as raw iff `source_size <this> stored.len()` -/",
         'def readerRawIf : String := "%s"' % (f.get("readerRawIf") or "unknown"),
+        "",
+        "/-- repairs that must stay in place (syntactic) -/",
+        "def cliTempFlushedBeforeReturn : Bool := %s" % ("true" if f.get("cliTempFlushedBeforeReturn") else "false"),
+        "def cloneOutputFlushedBeforeResize : Bool := %s" % ("true" if f.get("cloneOutputFlushedBeforeResize") else "false"),
+        "def fileSizeRewinds : Bool := %s" % ("true" if f.get("fileSizeRewinds") else "false"),
+        "def pinComparesFullBytes : Bool := %s" % ("true" if f.get("pinComparesFullBytes") else "false"),
+        "",
+        "/-- the CLI options the open flags depend on -/",
+        "structure CliFlags where",
+        "  force : Bool",
+        "  seedOutput : Bool",
+        "  verifyOutput : Bool",
+        "  deriving Repr, DecidableEq",
+        "",
+        "/-- `OpenOptions` of one open call: every flag as a function of the options; `none` = the",
+        "expression in the source is not one the extractor understands -/",
+        "structure OpenExprs where",
+        "  read : CliFlags → Option Bool",
+        "  write : CliFlags → Option Bool",
+        "  create : CliFlags → Option Bool",
+        "  createNew : CliFlags → Option Bool",
+        "  truncate : CliFlags → Option Bool",
+        "  append : CliFlags → Option Bool",
+        "",
+    ]
+    for name in ("cloneOpen", "compressOpen", "tempOpen"):
+        oo = f.get(name) or {}
+        lines.append("def %s : OpenExprs where" % name)
+        for rust, lean in (("read", "read"), ("write", "write"), ("create", "create"), ("create_new", "createNew"),
+                           ("truncate", "truncate"), ("append", "append")):
+            e = bool_expr(oo.get(rust, "false"))
+            lines.append("  %s := fun o => %s" % (lean, ("some (%s)" % e) if e is not None else "none"))
+        lines.append("")
+    lines += [
+        "/-- order of the steps of `clone_archive` / `compress_cmd` in the source -/",
+        "def cloneStepOrder : List String := %s" % lean_str_list(f.get("cloneStepOrder")),
+        "def compressStepOrder : List String := %s" % lean_str_list(f.get("compressStepOrder")),
+        'def tempExtension : String := "%s"' % (f.get("tempExtension") or "?"),
+        'def cloneSeedOpen : String := "%s"' % (f.get("cloneSeedOpen") or "unknown"),
+        'def cloneArchiveOpen : String := "%s"' % (f.get("cloneArchiveOpen") or "unknown"),
+        "/-- file-system calls in clone_cmd.rs other than opening files -/",
+        "def cloneOtherFsCalls : List String := %s" % lean_str_list(f.get("cloneOtherFsCalls")),
         "",
         "end Bita.Gen",
         "",
